@@ -254,6 +254,7 @@ inline std::string dump_aa(const alpaqa::AndersonAccel<config_t> &aa) {
         for (index_t i = 0; i < aa.n(); ++i)
             s += ' ' + vp::f2h(aa.G(i, c));
     s += " | " + vp::fmtv(aa.rₗₐₛₜ);
+    s += " | " + vp::fmtv(aa.γ_LS.head(K));
     mat R = qr.get_R();
     mat Q = qr.get_Q();
     s += " | " + std::to_string(K * K);
